@@ -22,6 +22,38 @@ Theorem range_agg_correct : forall f d v rows,
 Proof. exact lra_stage. Qed.
 Print Assumptions range_agg_correct.
 
+(* THE MAIN STATEMENT. For every range-aggregation, vector-aggregation or quantile script that is not answered from
+   the roll-up table, every context and every row list leaving the log pipeline (a fingerprint standing for one
+   label set, non-negative timestamps), the rows the planned SQL computes - LRA / unwrap / by-without / aggregate /
+   comparison / step-fix selects, read by LogqlMetricSem.sem - are, series by series and window by window, the
+   reference metric_ref: entries bucketed by (ts div range)*range, the named range function, the vector aggregation
+   over the label map filtered by by/without, the comparison threshold, the step re-bucketing. Both sides are None
+   together (a function the planners have no fragment for). Oracles: fp (cityHash64 of a label map, collision-free),
+   to_float, quantile, varPop, stddevPop. *)
+Theorem logql_metric_correct :
+  forall (fp : lmap -> N) (to_float : string -> Qc) (quantile_o : string -> list Qc -> Qc) (varpop stddevpop : list Qc -> Qc),
+  (forall a b, fp a = fp b -> a = b) ->
+  forall c base s fin p,
+  analyze_m15 s = false -> plan_metric s fin = Some p -> script_ok s ->
+  0 < c_step_ns c -> consistent base -> nonneg base ->
+  option_map (map strip) (sem fp to_float quantile_o varpop stddevpop p c base) =
+  metric_ref to_float quantile_o varpop stddevpop s c (map entry_of base).
+Proof. exact metric_correct. Qed.
+Print Assumptions logql_metric_correct.
+
+(* the roll-up path: over the 15-second roll-up of any row list the shortcut select yields the rows of the LRA select
+   over the rows themselves, for every range made of whole slots ... *)
+Theorem shortcut_value_correct : forall v k rows, nonneg rows -> 0 < k ->
+  sem_m15 v (15000000000 * k) (m15_rows rows) = sem_lra (m15_as_lra v) (15000000000 * k) rows.
+Proof. exact LogqlMetricProofs.shortcut_value_correct. Qed.
+Print Assumptions shortcut_value_correct.
+
+(* ... and the analysis admits only such ranges *)
+Theorem shortcut_only_whole_slots : forall s, analyze_m15 s = true ->
+  match first_lra s with Some l => exists k, 0 < k /\ lra_dur_ns l = 15000000000 * k | None => False end.
+Proof. exact analyze_m15_whole_slots. Qed.
+Print Assumptions shortcut_only_whole_slots.
+
 (* the 15-second shortcut is taken only for queries whose every stage can be answered from the roll-up table *)
 Theorem every_stage_takes_effect : forall s, analyze_m15 s = true -> m15_representable s = true.
 Proof. exact analyze_m15_sound. Qed.
